@@ -9,8 +9,9 @@ CONSTANTS
   Sinces = {1, 2}
   OpenCids = {"o1"}
   MaxTrades = 2
+  ClockSlack = FALSE
   IdSlack = 0
 INVARIANT Inv
-PROPERTIES AcceptIff ExactDebit RejectPure FreshIdsStep OneFill Notif11 QueriesReflect ConfigFixed
+PROPERTIES AcceptIff ExactDebit RejectPure FreshIdsStep OneFill Notif11 QueriesReflect ConfigFixed Clock
 VIEW View
 CHECK_DEADLOCK FALSE
